@@ -103,4 +103,16 @@ PROPS = {
         must_probes=dict(quick=["close_with_pending_flush", "unbuffered_flush_queue_runs", "long_reader_spans"],
                          thorough=["close_with_pending_flush", "unbuffered_flush_queue_runs", "long_reader_spans"]),
     ),
+    "C12": dict(
+        pkg="engine", race=True, level="exploration",
+        # race-detector processes do not scale in this VM (about 3.4 runs/s in total however many run in parallel)
+        workers=2,
+        rule=CONC_RULE + "; the simulation binary is built with -race and the scheduler hand-off is invisible to the detector (tasks "
+             "release to the scheduler only; lock probes and wake-ups run with synchronisation events disabled), so the detector sees "
+             "exactly the engine's own synchronisation under a serialised, replayable schedule; a report counts when both access stacks "
+             "reach engine code before any harness frame; violations: such reports, any panic of an engine goroutine or client call, "
+             "and any verdict of the C05/C06/C07 oracles on the same history",
+        quick=dict(runs=400, budget_s=35, det_runs=2), thorough=dict(runs=8000, budget_s=1800, det_runs=6),
+        must_probes=dict(quick=["fine_grained_runs", "runs_reaching_L1", "long_reader_spans"], thorough=["fine_grained_runs", "runs_reaching_L2", "long_reader_spans"]),
+    ),
 }
